@@ -22,7 +22,8 @@ PAYLOADS = ['link-abs-file', 'link-abs-dir', 'link-rel-file', 'link-rel-dir', 'd
             'link-to-trash-root', 'link-to-info-dir', 'link-dotdot', 'deep-tree']
 INFONAMES = ['e', 'x.trashinfo', 'new\nline', '.hidden', 'a b', '-rf', '', '.', '..']
 CRAFTED = ('', '.', '..')  # info files '.trashinfo', '..trashinfo', '...trashinfo': no payload can exist
-CMDS = ['empty', 'empty-days', 'rm-star', 'rm-exact', 'empty-trash-dir', 'rm-abs', 'empty+unlink-refused', 'rm-star+unlink-refused', 'empty+rmdir-refused']
+CMDS = ['empty', 'empty-days', 'rm-star', 'rm-exact', 'empty-trash-dir', 'rm-abs', 'empty+unlink-refused', 'rm-star+unlink-refused', 'empty+rmdir-refused', 'empty-verbose', 'empty-days-vv', 'empty-dry-run-v']
+NCMD = len(CMDS)
 VIA = ['direct', 'symlinked-trash-dir', 'symlinked-files-dir']
 
 
@@ -86,6 +87,12 @@ def _case(pk, iname, cmd, via):
             step = C('empty', [], scen.env(), cwd='/v')
         elif c == 'empty-days':
             step = C('empty', ['1'], scen.env(), now='2020-06-01T00:00:00', cwd='/v')
+        elif c == 'empty-verbose':
+            step = C('empty', ['-v'], scen.env(), cwd='/v')
+        elif c == 'empty-days-vv':
+            step = C('empty', ['-vv', '1'], scen.env(), now='2020-06-01T00:00:00', cwd='/v')
+        elif c == 'empty-dry-run-v':
+            step = C('empty', ['--dry-run', '-v'], scen.env(), cwd='/v')
         elif c == 'rm-star':
             step = C('rm', ['*'], scen.env(), cwd='/v')
         elif c == 'rm-exact':
@@ -110,6 +117,10 @@ def _case(pk, iname, cmd, via):
         if name in CRAFTED:
             label = 'crafted-info=%s.trashinfo:via=%s:cmd=%s' % (name, v, c)
         removed, added, changed = scen.delta(before, after)
+        if c == 'empty-dry-run-v':
+            if after != before:
+                return rt.fail('C11:dry-run-touched-something:' + label, 'removed=%r changed=%r' % (sorted(removed)[:5], sorted(changed)[:5]))
+            return rt.ok()
         info_dir = real_td + '/info'
         for p in list(removed) + list(added) + list(changed):
             if scen.is_under(p, files_dir) and p != files_dir:
@@ -136,15 +147,15 @@ def _case(pk, iname, cmd, via):
 def w_main(pk: int, iname: int, cmd: int, via: int) -> str:
     """
     pre: PARTITION is None or pk == PARTITION
-    pre: 0 <= pk < 11 and 0 <= iname < 9 and 0 <= cmd < 9 and 0 <= via < 3
+    pre: 0 <= pk < 11 and 0 <= iname < 9 and 0 <= cmd < NCMD and 0 <= via < 3
     post: _ == ''
     """
-    return _case(rt.sel(pk, 11), rt.sel(iname, 9), rt.sel(cmd, 9), rt.sel(via, 3))
+    return _case(rt.sel(pk, 11), rt.sel(iname, 9), rt.sel(cmd, NCMD), rt.sel(via, 3))
 
 
 def obligations(tier):
     return kpair.obligations(tier) + [
         CH('W_payload_x_name_x_cmd_x_via', MOD, 'w_main', timeout=900, partitions=list(range(11)), engine='W', regime='selector',
            encodes=K.EMPTY_FUNCS + K.RM_FUNCS + ['RealRemoveFile2.remove_file2', 'shutil.rmtree (CPython source over the model)'],
-           stubs=K.STUBS, bounds='11 payload shapes x 9 info names (incl. crafted .trashinfo, ..trashinfo, ...trashinfo) x 9 commands (incl. one refused unlink/rmdir inside the trashed tree) x 3 ways of reaching the trash dir'),
+           stubs=K.STUBS, bounds='11 payload shapes x 9 info names (incl. crafted .trashinfo, ..trashinfo, ...trashinfo) x 12 commands (incl. -v / -vv / --dry-run -v, one refused unlink/rmdir inside the trashed tree) x 3 ways of reaching the trash dir'),
     ]
